@@ -40,8 +40,13 @@ def wrap(level, tsb, tsmid, steps):
     return {"level": level, "tsb": tsb, "tsmid": tsmid, "steps": steps}
 
 
-def ev(a, s=0, w=0, ts=0, t=0, ntp=None, rate=0):
-    return {"a": a, "s": s, "w": w, "ts": ts, "t": t, "ntp": ntp or NTP_POOL[0], "rate": rate}
+def ev(a, s=0, w=0, ts=0, t=0, ntp=None, rate=0, cmp=0, lost0=0):
+    e = {"a": a, "s": s, "w": w, "ts": ts, "t": t, "ntp": ntp or NTP_POOL[0], "rate": rate}
+    if cmp:
+        e["cmp"] = cmp          # interceptor level: the sender report travels in a compound packet next to foreign ones
+    if lost0:
+        e["lost0"] = lost0      # stream level: base of the cumulative-lost counter (brings the saturation within reach)
+    return e
 
 
 class Stream:
@@ -67,7 +72,8 @@ def random_script(rng, level, n, beyond=False, g=None):
     streams = {}
     for s in (1, 2, 3):
         streams[s] = Stream(rng, s, rng.choice(rates))
-        steps.append(ev("bind", s=s, rate=streams[s].rate))
+        steps.append(ev("bind", s=s, rate=streams[s].rate,
+                        lost0=rng.choice([0, 0, 0xFFFFFF - 40, 0xFFFFFF - 3, 0xFFFFFF]) if level == "stream" else 0))
     p_loss = rng.choice([0.0, 0.02, 0.1, 0.3])
     p_report = rng.choice([0.02, 0.05, 0.2])
 
@@ -145,7 +151,7 @@ def random_script(rng, level, n, beyond=False, g=None):
         elif r < 0.97:
             s = rng.choice([1, 1, 2, 3, 9])                               # 9 is never bound
             steps.append(ev("sr", s=s, t=now, ntp=[rng.randrange(65536) for _ in range(4)] if rng.random() < 0.7
-                            else rng.choice(NTP_POOL)))
+                            else rng.choice(NTP_POOL), cmp=rng.choice([0, 0, 1, 2])))
         elif r < 0.985:
             report()
             steps.append(ev("unbind", s=st.s))
@@ -263,6 +269,7 @@ def run(ctx):
         for sc in rng.sample(scripts, min(k, len(scripts))):
             sc2 = dict(sc)
             sc2["level"] = "icpt"
+            sc2["steps"] = [dict(e, cmp=rng.choice([0, 1, 2])) if e["a"] == "sr" else e for e in sc["steps"]]
             icpt_sample.append(sc2)
     run_batch(ctx, icpt_sample, "G-icpt")
     # (T) seeded random long histories
